@@ -127,6 +127,18 @@ Theorem C10_cfi_decoded_history_independent : forall F, wf_file F = true -> fora
 Proof. exact cfi_decoded_after_history. Qed.
 Print Assumptions C10_cfi_decoded_history_independent.
 
+(* ---- two opened files in one process (any two files, e.g. of different byte order, address size, DWARF
+   format): a history that interleaves queries on both gets, for every query, the stateless answer for ITS file;
+   the model has no state outside the two objects - that the library has none either (module- or class-level
+   caches) is what the pair histories of the correspondence pin *)
+Theorem C10_two_objects_independent : forall F1 F2, wf_file F1 = true -> wf_file F2 = true ->
+  forall fuel1 fuel2, fuel_ok F1 fuel1 = true -> fuel_ok F2 fuel2 = true ->
+  forall h s1 s2 a1 a2, Inv F1 s1 -> frames_rel F1 s1 a1 -> Inv F2 s2 -> frames_rel F2 s2 a2 ->
+  forallb (fun wo : bool * op => op_ok (if fst wo then F2 else F1) (snd wo)) h = true ->
+  prod_run (parsers_of F1) (parsers_of F2) fuel1 fuel2 (s1, s2) h = spec_prod_run F1 F2 (a1, a2) h.
+Proof. exact product_refines. Qed.
+Print Assumptions C10_two_objects_independent.
+
 (* ---- repeated identical queries return equal results, whatever happens in between *)
 Theorem C10_repeated_queries_equal : forall F, wf_file F = true -> forall fuel, fuel_ok F fuel = true ->
   forall n h1 h2 o, forallb (op_ok F) (h1 ++ o :: h2 ++ [o]) = true -> is_query o = true ->
@@ -236,4 +248,11 @@ Example C10_ex_type_units :
   snd (run (parsers_of ex_file0) 40 (init_state 2) h) =
   [ADone; AVals [0; 0; 600]; AVals [0; 12; 601]; AVals [0; 12; 601]; AVals [0; 0; 600]; AErr (EPy "KeyError"); AStop;
    AVals [0; 12; 601]].
+Proof. vm_compute. split; reflexivity. Qed.
+
+Example C10_ex_two_objects :
+  let h := [(false, CFI false); (true, CFIDecoded false 1); (false, CFIDecoded false 2); (true, LineProg 0); (false, Parent 0 20)] in
+  forallb (fun wo : bool * op => op_ok (if fst wo then ex_file0 else ex_file) (snd wo)) h = true /\
+  prod_run (parsers_of ex_file) (parsers_of ex_file0) 40 40 (init_state 1, init_state 1) h =
+  [AVals [300]; AVals [501]; AVals [502]; AVals [200; 1]; ADie 0 18 3].
 Proof. vm_compute. split; reflexivity. Qed.
